@@ -37,6 +37,9 @@ type Obligation struct {
 	FailSMT   string
 	Detail    string
 	Variant   string
+	OutsideRegion string // for known findings: status of the clause outside the listed region
+	Replayed  bool
+	ReplayObs string
 }
 
 type pathGoal struct {
@@ -345,7 +348,9 @@ func (e *Engine) verifyFunction(ct *Contract, prop string, tier string) *fnResul
 					if !applies {
 						continue
 					}
+					env.pol = 1
 					g := env.term(cl.Node)
+					env.pol = 0
 					o := getObl(cl.Name, "ensures", cl.Src, cl.Props, cl.Line)
 					if env.err != nil {
 						o.Status, o.Detail = "broken", env.err.Error()
@@ -378,24 +383,39 @@ func (e *Engine) verifyFunction(ct *Contract, prop string, tier string) *fnResul
 					_ = mustfailSeen
 				}
 				if len(goals) > 0 {
+					var gts []Term
+					for _, g := range goals {
+						gts = append(gts, g.goal)
+					}
+					e.instantiateAll(ex.st, preX, gts)
 					for gi := range goals {
 						if goals[gi].obl.Variant == "" {
 							goals[gi].obl.Variant = vname
 						}
 					}
 					var extra []string
+					var defs strings.Builder
 					for _, l := range ct.Lets {
-						if sv, ok := env.vars[l.Name].(VSym); ok && !sv.T.IsConst() && len(sv.T.S) < 2000 {
+						if sv, ok := env.vars[l.Name].(VSym); ok && !sv.T.IsConst() {
+							nm := "let." + l.Name
+							fmt.Fprintf(&defs, "(define-fun %s () %s %s)\n", nm, sv.T.Sort.Name, sv.T.S)
 							if sv.T.Sort == SRow {
-								extra = append(extra, fmt.Sprintf("(r.present %s)", sv.T.S), fmt.Sprintf("(b.isnil (r.value %s))", sv.T.S),
-									fmt.Sprintf("(r.tombstone %s)", sv.T.S), fmt.Sprintf("(r.cas %s)", sv.T.S), fmt.Sprintf("(r.exp %s)", sv.T.S),
-									fmt.Sprintf("(r.rev %s)", sv.T.S), fmt.Sprintf("(r.isJSON %s)", sv.T.S), fmt.Sprintf("(b.isnil (r.xattrs %s))", sv.T.S))
+								for _, f := range []string{"r.present", "r.value", "r.tombstone", "r.cas", "r.exp", "r.rev", "r.isJSON", "r.xattrs"} {
+									extra = append(extra, fmt.Sprintf("(%s %s)", f, nm))
+								}
 							} else {
-								extra = append(extra, sv.T.S)
+								extra = append(extra, nm)
 							}
 						}
 					}
-					vcs = append(vcs, vc{header: e.scriptHeader(ex.st, preX), goals: goals, ex: ex, pre: preX, extra: extra})
+					for vn, vv := range env.vars {
+						if sv, ok := vv.(VSym); ok && !sv.T.IsConst() && len(sv.T.S) < 60 && (strings.HasPrefix(vn, "result") || vn == "err") {
+							extra = append(extra, sv.T.S)
+						}
+					}
+					extra = append(extra, "NULLB")
+					hdr := e.scriptHeader(ex.st, preX) + defs.String()
+					vcs = append(vcs, vc{header: hdr, goals: goals, ex: ex, pre: preX, extra: extra})
 				}
 			}
 		}
@@ -726,4 +746,94 @@ type sideObl struct {
 	line             int
 	header           string
 	goal             Term
+}
+
+// instantiateBulk adds, for every pointwise table definition met on the path, its instance on every DocId term
+// that occurs in the path condition or in a goal (the addressed row, Skolem rows of frame clauses, witnesses).
+func (e *Engine) instantiateAll(st *State, pre *State, goals []Term) {
+	if pre == nil {
+		pre = st
+	}
+	// quantified facts over other sorts: instantiate on every declared constant of the sort (+ string literals)
+	for round := 0; round < 2; round++ {
+		for sortName, fs := range st.inst {
+			var terms []Term
+			seenT := map[string]bool{}
+			for _, ds := range [][]string{st.decls, pre.decls} {
+				for _, d := range ds {
+					if strings.HasSuffix(d, " "+sortName+")") {
+						name := strings.Fields(d)[1]
+						if !seenT[name] {
+							seenT[name] = true
+							terms = append(terms, mkT(name, canonSort(sortName)))
+						}
+					}
+				}
+			}
+			if sortName == "Str" {
+				for _, lit := range e.strOrder {
+					terms = append(terms, mkT(e.strLits[lit], SStr))
+				}
+			}
+			for _, f := range fs {
+				for _, t := range terms {
+					st.fact(f(st, t))
+				}
+			}
+		}
+	}
+	if len(st.bulk) == 0 {
+		return
+	}
+	seen := map[string]bool{}
+	var idx []Term
+	scan := func(s string) {
+		for off := 0; ; {
+			i := strings.Index(s[off:], "(mkId ")
+			if i < 0 {
+				return
+			}
+			i += off
+			d := 0
+			j := i
+			for ; j < len(s); j++ {
+				if s[j] == '(' {
+					d++
+				} else if s[j] == ')' {
+					d--
+					if d == 0 {
+						break
+					}
+				}
+			}
+			t := s[i : j+1]
+			if !seen[t] {
+				seen[t] = true
+				idx = append(idx, mkT(t, SDocId))
+			}
+			off = i + 6
+		}
+	}
+	for _, c := range st.pc {
+		scan(c.S)
+	}
+	for _, g := range goals {
+		scan(g.S)
+	}
+	for _, ds := range [][]string{st.decls, pre.decls} {
+		for _, d := range ds {
+			if strings.HasSuffix(d, " DocId)") {
+				name := strings.Fields(d)[1]
+				if !seen[name] {
+					seen[name] = true
+					idx = append(idx, mkT(name, SDocId))
+				}
+			}
+		}
+	}
+	for _, f := range st.bulk {
+		for _, i := range idx {
+			st.fact(f(st, i))
+		}
+	}
 }
